@@ -328,8 +328,8 @@ fn main() {
             deep.push((format!("pep440-release n={n}"), a(&["render", "-f", "pep440", &format!("{}1", rep("1.", n.min(2000)))]), None));
         }
         // versions with thousands of dot-separated parts (a section-size limit anywhere between the parser and the renderer
-        // must be a diagnostic, never an `expect`): just above 2^12 and 10^4, thorough also 2^14 and 3 x 10^4
-        for &n in if quick { &[4097usize, 10001][..] } else { &[4097usize, 10001, 16385, 30000][..] } {
+        // must be a diagnostic, never an `expect`): just above 2^12 and 10^4, thorough also 2^14 (the dev-profile binary is quadratic in the number of parts: 16385 parts take about 25 s of the 120 s horizon)
+        for &n in if quick { &[4097usize, 10001][..] } else { &[4097usize, 10001, 16385][..] } {
             deep.push((format!("semver-many-prerelease-ids n={n}"), a(&["render", &format!("1.0.0-{}a", rep("a.", n - 1))]), None));
             deep.push((format!("semver-many-build-ids n={n}"), a(&["render", "--output-format", "pep440", &format!("1.0.0+{}a", rep("a.", n - 1))]), None));
             deep.push((format!("pep440-many-local-parts n={n}"), a(&["render", "-f", "pep440", &format!("1.0+{}a", rep("a.", n - 1))]), None));
